@@ -393,6 +393,7 @@ int main(int argc, char **argv) {
         if (fam->prepare) fam->prepare(seed, &o);
         RunArg ra = { fam, seed, &o };
         Buf out = {0}, asan = {0}; int st = 0; char role[48] = "";
+        if (__real_getenv("NANOSIM_NOFORK")) { run_child(&ra, 1); continue; }   /* debugging aid: run in this process (gdb, valgrind) */
         fork_collect(run_child, &ra, &out, &st, role, sizeof role, &asan);
         char *planline = NULL; size_t planlen = 0; char *resline = NULL;
         if (out.len) {
